@@ -166,9 +166,14 @@ def run_scenario(chk, sc, cfgseed, ndims):
                     return "field %r has two rows in the min/max table" % name
                 got[name] = (vals[0], vals[1]) if len(vals) >= 2 else None
         levels = range(len(A["lev"])) if mode == "minmax" else [len(A["lev"]) - 1]
-        for i, f in enumerate(fields):
+        # a repeated header name is shown under the reader's numbering of repeats: name, name_2, name_3 ... (by position)
+        seen, shown_as = {}, []
+        for f in fields:
+            seen[f] = seen.get(f, 0) + 1
+            shown_as.append(f if seen[f] == 1 else "%s_%d" % (f, seen[f]))
+        for i, (f0, f) in enumerate(zip(fields, shown_as)):
             if f not in got:
-                return "field %r (one of %d) has no row in the min/max table" % (f, len(fields))
+                return "field %r (number %d of %d) has no row in the min/max table" % (f, i + 1, len(fields))
             los = [row[i] for l in levels for row in A["lev"][l]["mins"]]
             his = [row[i] for l in levels for row in A["lev"][l]["maxs"]]
             for shown, vals, fun, what in ((got[f][0], los, min, "min"), (got[f][1], his, max, "max")):
@@ -189,7 +194,7 @@ def run_scenario(chk, sc, cfgseed, ndims):
                 if not ok:
                     return "%s of %r printed as %r, the level headers hold %r (%s)" % (
                         what, f, shown, sorted(set(vals), key=repr)[:6], "all levels" if mode == "minmax" else "finest level")
-        extra = set(got) - set(fields)
+        extra = set(got) - set(shown_as)
         if extra:
             return "min/max table has rows for %r which are not fields" % sorted(extra)
     # ---- marinate (3-D only: the tool builds the ghost map)
